@@ -870,3 +870,159 @@ Proof.
       * intros k1 [].
       * intros H; contradiction.
 Qed.
+
+(* ------------------------------------------------------------------------- *)
+(* 8. TLS session resumption                                                  *)
+
+Lemma link_accepted_conn fx s h id msgs c :
+  tls_handshake fx s 0 0 None h = Accept -> leaf h = Some c ->
+  link fx LTls RAccept s h id msgs = accepted_conn fx s c id msgs.
+Proof. intros Ha Hl. unfold link, accepted_conn. simpl. rewrite Ha, Hl. reflexivity. Qed.
+
+(* a certificate accepted in an earlier handshake (earlier nonce: 1) *)
+Definition earlier_cert (k : key) (t : tkey) : cert :=
+  mkcert (pub_to_cn k) [URI true true (pub_to_cn k)] (Some (SigBy k 1 (pub_to_cn k) None))
+         t SgSelf (-300) 7200 true false.
+
+(* unrepaired: a peer that once completed an honest handshake with its own key
+   reconnects with the ticket alone -- no certificate, nothing signed over the
+   new nonce -- and is served; the property's freshness clause (2) fails *)
+Theorem resumption_refuted :
+  let t := Some (earlier_cert 2 0, true) in
+  let h := Hello [] 0 in
+  let '(o, resumed) := link_r pinned LTls RAccept Ed25519 t h IdMatch 2 in
+  resumed = true /\ o = mkout true 2 [2; 2] false /\
+  prop_check LTls RAccept Ed25519 [2; 3] (effective resumed t h) IdMatch
+             (out_hs o) (out_disp o) (out_stamp o) (out_crash o) = [2].
+Proof. vm_compute. auto. Qed.
+
+(* repaired (tickets disabled): an offered session changes nothing *)
+Theorem no_resumption_when_repaired fx lv r s t h id msgs :
+  fix_resume fx = true -> link_r fx lv r s t h id msgs = (link fx lv r s h id msgs, false).
+Proof.
+  intros Hf. unfold link_r, resumes. destruct lv, r, t as [[c0 []]|]; try reflexivity.
+  rewrite Hf. reflexivity.
+Qed.
+
+(* resumption needs a ticket of the same listener incarnation, on the listening side *)
+Theorem resumption_only_same_incarnation fx lv r s t h id msgs :
+  snd (link_r fx lv r s t h id msgs) = true ->
+  lv = LTls /\ r = RAccept /\ fix_resume fx = false /\ exists c0, t = Some (c0, true).
+Proof.
+  unfold link_r, resumes. destruct lv, r, t as [[c0 []]|]; simpl; try discriminate.
+  destruct (fix_resume fx) eqn:E; simpl; try discriminate. intros _. eauto.
+Qed.
+
+(* the identity clause survives a resumption: whatever is dispatched carries the
+   key of the ORIGINAL handshake's certificate, which the peer declared again *)
+Theorem resumed_identity_is_ticket_key fx s c0 id msgs k :
+  In k (out_stamp (accepted_conn fx s c0 id msgs)) ->
+  key_of_cn s (c_cn c0) = Some k /\ declared s c0 id = Some k.
+Proof.
+  unfold accepted_conn. destruct (nokey_crashes fx s c0 id); [intros []|].
+  destruct (router_accepts s c0 id) eqn:Er; [|intros []].
+  apply identity_matches in Er as (k0 & Hk0 & Hd). rewrite Hd.
+  intros Hin. apply in_repeat in Hin. subst. auto.
+Qed.
+
+(* all four repairs: the property holds also for peers that offer tickets *)
+Theorem repaired_link_r_satisfies_property holds own_tls htls r s t h id msgs :
+  (forall k, ~ In k holds -> own_tls (htls k) = false) ->
+  let fx := mkfixes true true true true in
+  presentable fx holds own_tls htls h ->
+  let '(o, resumed) := link_r fx LTls r s t h id msgs in
+  link_property LTls r s holds (effective resumed t h) id (out_hs o) (out_disp o) (out_stamp o) (out_crash o).
+Proof.
+  intros Hh fx Hp. rewrite (no_resumption_when_repaired fx LTls r s t h id msgs eq_refl).
+  simpl effective. exact (repaired_link_satisfies_property holds own_tls htls r s h id msgs Hh Hp).
+Qed.
+
+(* ------------------------------------------------------------------------- *)
+(* 9. what a PARTLY repaired variant guarantees (used for the code's variant) *)
+
+(* the proof inside c is the honest holder's own proof for nonce n, presented
+   by a peer that does not hold k *)
+Definition relay_pattern (holds : list key) (n : nonce) (c : cert) (k : key) : Prop :=
+  ~ In k holds /\ c_cn c = pub_to_cn k /\ c_sig c = Some (SigBy k n (pub_to_cn k) None).
+
+Record guarantee (holds : list key) (r : role) (s : suite) (id : ident)
+       (resumed : bool) (h' : hello) (o : outcome) : Prop := {
+  g_nocrash : out_crash o = false;
+  g_accept : out_hs o = true ->
+    exists c k, leaf h' = Some c /\ key_of_cn s (c_cn c) = Some k /\
+      (* possession, the relay being the only other way *)
+      (In k holds \/ relay_pattern holds (if resumed then 1 else 0) c k) /\
+      (* freshness and validity, a resumption being the only other way *)
+      (resumed = false ->
+       exists tk, c_sig c = Some (SigBy k 0 (c_cn c) tk) /\ (c_nb c <= 0 <= c_na c)%Z) /\
+      (* the dialler reaches the key it dialled *)
+      (forall e, r = RDial e -> k = e) /\
+      (* every dispatched message carries the proven key; the peer declared it *)
+      (forall k', In k' (out_stamp o) -> k' = k) /\
+      (out_disp o <> 0 -> r = RAccept -> declared s c id = Some k);
+  g_refused : out_hs o = false -> out_disp o = 0 /\ out_stamp o = []
+}.
+
+(* the ticket, if any, stems from an earlier handshake that was accepted under
+   the same rule: its certificate names a key the peer holds or relayed then *)
+Definition ticket_ok (holds : list key) (s : suite) (t : ticket) : Prop :=
+  forall c0 b, t = Some (c0, b) ->
+    exists k, key_of_cn s (c_cn c0) = Some k /\ (In k holds \/ relay_pattern holds 1 c0 k).
+
+Theorem partly_repaired_guarantee fx holds own_tls htls r s t h id msgs :
+  fix_f09 fx = true -> fix_nokey fx = true ->
+  (forall k, ~ In k holds -> own_tls (htls k) = false) ->
+  presentable fx holds own_tls htls h ->
+  ticket_ok holds s t ->
+  guarantee holds r s id (snd (link_r fx LTls r s t h id msgs))
+            (effective (snd (link_r fx LTls r s t h id msgs)) t h)
+            (fst (link_r fx LTls r s t h id msgs)).
+Proof.
+  intros Hf09 Hnk Hh Hp Ht. unfold link_r. destruct (resumes fx LTls r t) as [c0|] eqn:Er.
+  - (* resumed *)
+    unfold resumes in Er. destruct r as [e|]; [discriminate|].
+    destruct t as [[c1 []]|]; try discriminate. destruct (fix_resume fx); [discriminate|].
+    injection Er as ->. simpl. destruct (Ht c0 true eq_refl) as (k & Hk & Hpos).
+    unfold accepted_conn. rewrite (nokey_fixed fx s c0 id Hnk).
+    destruct (router_accepts s c0 id) eqn:Era.
+    + destruct (identity_matches _ _ _ Era) as (k1 & Hk1 & Hd). rewrite Hd.
+      rewrite Hk in Hk1. injection Hk1 as <-.
+      constructor; simpl; [reflexivity| |discriminate].
+      intros _. exists c0, k. repeat split; auto; try discriminate.
+      intros k' Hin. now apply in_repeat in Hin.
+    + constructor; simpl; [reflexivity| |discriminate].
+      intros _. exists c0, k. repeat split; auto; try discriminate.
+      * intros k' [].
+      * intros H; contradiction.
+  - (* full handshake *)
+    simpl. unfold link.
+    destruct (tls_handshake fx s 0 0 (them_of r) h) eqn:Et; simpl.
+    2:{ constructor; simpl; [reflexivity|discriminate|auto]. }
+    destruct (possession_or_relay fx holds own_tls htls Hh s 0%Z 0 (them_of r) h Hp Et)
+      as (c & k & Hl & Hk & Hpos).
+    pose proof Et as Et'. apply tls_handshake_accept in Et' as (c' & hk & -> & Htk & Hv).
+    simpl in Hl. injection Hl as <-.
+    destruct (proof_of_possession _ _ _ _ _ _ Hv) as (c1 & k1 & tk & Heq & Hk1 & Hs & Hval & _).
+    injection Heq as <-. rewrite Hk in Hk1. injection Hk1 as <-.
+    assert (Hpos' : In k holds \/ relay_pattern holds 0 c' k).
+    { destruct Hpos as [Hin|(_ & Hn & Hcn & Hsg)]; [left; assumption|right; repeat split; assumption]. }
+    assert (Hfr : false = false -> exists tk, c_sig c' = Some (SigBy k 0 (c_cn c') tk) /\ (c_nb c' <= 0 <= c_na c')%Z)
+      by (intros _; exists tk; split; assumption).
+    destruct r as [e|].
+    + apply dial_reaches_expected_fixed in Hv as (c2 & tk2 & Heq & Hke & _); [|assumption].
+      injection Heq as <-. rewrite Hk in Hke. injection Hke as <-.
+      constructor; simpl; [reflexivity| |discriminate].
+      intros _. exists c', k. repeat split; auto; try discriminate.
+      * intros e [= <-]. reflexivity.
+      * intros k' Hin. now apply in_repeat in Hin.
+    + simpl. rewrite (nokey_fixed fx s c' id Hnk). destruct (router_accepts s c' id) eqn:Era.
+      * destruct (identity_matches _ _ _ Era) as (k2 & Hk2 & Hd). rewrite Hd.
+        rewrite Hk in Hk2. injection Hk2 as <-.
+        constructor; simpl; [reflexivity| |discriminate].
+        intros _. exists c', k. repeat split; auto; try discriminate.
+        intros k' Hin. now apply in_repeat in Hin.
+      * constructor; simpl; [reflexivity| |discriminate].
+        intros _. exists c', k. repeat split; auto; try discriminate.
+        -- intros k' [].
+        -- intros H; contradiction.
+Qed.
